@@ -398,6 +398,17 @@ func c19Ops() []c19Op {
 	add("exec_named", true, true, true, func(h *gorm.DB, k int) *gorm.DB {
 		return h.Exec("UPDATE c19_plains SET name = @n WHERE age = @a", map[string]interface{}{"n": c19Str(k), "a": k % 50})
 	})
+	// raw text as users write it: indented back-quoted blocks, comments, trailing semicolons (shapes: c19_recv.go c19rShape);
+	// crossed with every configuration (PrepareStmt!) and derivation like every other op
+	add("raw_scan_ws", false, true, true, func(h *gorm.DB, k int) *gorm.DB {
+		pre, post, sep := c19rShape(k)
+		var xs []C19Plain
+		return h.Raw(pre+"SELECT *"+sep+"FROM c19_plains"+sep+"WHERE name = ? OR age IN ?"+post, c19Str(k), []int{k, k + 1}).Scan(&xs)
+	})
+	add("exec_ws", true, true, true, func(h *gorm.DB, k int) *gorm.DB {
+		pre, post, sep := c19rShape(k)
+		return h.Exec(pre+"UPDATE c19_plains"+sep+"SET name = ?"+sep+"WHERE age = ?"+post, c19Str(k), k%50)
+	})
 	// ---- association mode (error-only API: judged for silence only) ----------------------------
 	asc := func(name string, f func(a *gorm.Association, k int)) {
 		for _, rel := range []string{"Lines", "Tags", "Co"} {
